@@ -374,24 +374,73 @@ def _one(ctx, rng, idx, sname, sp, uf, vcls):
 
 
 def run_reductions_legacy(ctx):
+    """x.ufuncs.sum / prod / min / max (axis, dtype, out, keepdims) against np.add / multiply / minimum / maximum .reduce on
+    the underlying array: same numbers, same result dtype (NumPy promotes small integers and booleans to the platform integer
+    and takes the accumulator type from ``out``), same shape.  Also small integer / boolean dtypes with enough entries to wrap."""
     rng = ctx.rng('legacy-red')
-    for sname, sp in spaces():
-        if np.dtype(sp.dtype).kind not in 'fci':
-            continue
+    ufs = {'sum': np.add, 'prod': np.multiply, 'min': np.minimum, 'max': np.maximum}
+    extra = [('tensor1d-300;%s' % np.dtype(dt).name, odl.tensor_space(300, dtype=dt)) for dt in ('int8', 'uint8', 'int16', 'int32', 'bool', 'float16')]
+    extra += [('tensor2d;int8', odl.tensor_space((40, 5), dtype='int8')), ('discr1d-300;int8', odl.uniform_discr(0, 1, 300, dtype='int8')),
+              ('tensor1d-3000;float32', odl.tensor_space(3000, dtype='float32'))]
+    for sname, sp in list(spaces()) + extra:
+        kind = np.dtype(sp.dtype).kind
         x = rnd(sp, rng)
+        if kind in 'iub' and sp.size >= 300:
+            x = sp.one() if kind != 'b' else sp.element(rng.random(sp.shape) < 0.7)
         xa = np.asarray(x).copy()
-        for red in ('sum', 'prod', 'min', 'max'):
-            if np.dtype(sp.dtype).kind == 'c' and red in ('min', 'max'):
+        for red, uf in ufs.items():
+            if kind == 'c' and red in ('min', 'max'):
                 continue
-            ctx.ev('differential')
-            ctx.case('legacy-reduction;%s' % sname, red)
-            try:
-                got = getattr(x.ufuncs, red)()
-                ref = getattr(np, red)(xa)
-                if not np.allclose(got, ref, rtol=1e-6 if sp.dtype == np.float32 else 1e-13):
-                    ctx.violation('legacy:' + red, sname, 'value', got=got, ref=ref)
-            except Exception as e:
-                ctx.violation('legacy:' + red, sname, 'raises:' + type(e).__name__, message=str(e)[:200])
+            if kind == 'b' and red in ('prod',):
+                pass
+            variants = [('plain', {})]
+            if sp.ndim >= 1:
+                variants.append(('axis0', {'axis': 0}))
+            if sp.ndim >= 2:
+                variants += [('axis-1', {'axis': -1})]
+                if not isinstance(sp, odl.DiscretizedSpace):    # keepdims is documented as unsupported on discretized spaces
+                    variants += [('axis0;keepdims', {'axis': 0, 'keepdims': True})]
+            if kind in 'fiub':
+                variants.append(('dtype=float64', {'dtype': 'float64'}))
+            for vname, kw in variants:
+                ctx.ev('differential')
+                ctx.case('legacy-reduction;%s;%s' % (sname, vname), red)
+                cfg = '%s;%s' % (sname.split(';')[0].split('-')[0] + ';' + np.dtype(sp.dtype).name, vname)
+                try:
+                    with np.errstate(all='ignore'):
+                        got = getattr(x.ufuncs, red)(**kw)
+                        ref = uf.reduce(xa, **dict({'axis': None}, **kw))
+                    ga, ra = np.asarray(got), np.asarray(ref)
+                    if ga.shape != ra.shape:
+                        ctx.violation('legacy:' + red, cfg, 'shape', got=ga.shape, ref=ra.shape)
+                    elif ga.dtype != ra.dtype:
+                        ctx.violation('legacy:' + red, cfg, 'dtype', got=str(ga.dtype), ref=str(ra.dtype))
+                    elif not np.allclose(ga, ra, rtol=1e-6 if sp.dtype in (np.float32, np.float16) else 1e-13, equal_nan=True):
+                        ctx.violation('legacy:' + red, cfg, 'value', got=ga.ravel()[:4], ref=ra.ravel()[:4])
+                    if not np.array_equal(np.asarray(x), xa):
+                        ctx.violation('legacy:' + red, cfg, 'x-modified')
+                except Exception as e:
+                    ctx.violation('legacy:' + red, cfg, 'raises:' + type(e).__name__, message=str(e)[:200])
+            # out= of a wider type: the accumulation happens in the type of out (NumPy), value compared at that precision
+            if kind == 'f' and sp.dtype != np.float64 and sp.ndim >= 1 and red in ('sum', 'prod'):
+                ctx.ev('differential')
+                cfg = '%s;%s' % (sname.split(';')[0].split('-')[0] + ';' + np.dtype(sp.dtype).name, 'axis0;out=float64-array')
+                try:
+                    xs = x if red == 'sum' else sp.element(1 + 1e-3 * np.asarray(x))
+                    xsa = np.asarray(xs).copy()
+                    oshape = xsa.shape[1:]
+                    out = np.full(oshape, np.nan, dtype='float64')
+                    with np.errstate(all='ignore'):
+                        r = getattr(xs.ufuncs, red)(axis=0, out=out)
+                        ref = uf.reduce(xsa, axis=0, out=np.full(oshape, np.nan, dtype='float64'))
+                        exact = uf.reduce(xsa.astype('float64'), axis=0)
+                    if r is not out and not (oshape == () and np.asarray(r).shape == ()):
+                        ctx.violation('legacy:' + red, cfg, 'not-out')
+                    # either NumPy's own route or the exact wide accumulation (both "written into out" readings)
+                    if not (np.allclose(out, ref, rtol=1e-12, atol=0) or np.allclose(out, exact, rtol=1e-12, atol=0)):
+                        ctx.violation('legacy:' + red, cfg, 'value', got=np.asarray(out).ravel()[:3], ref=np.asarray(ref).ravel()[:3])
+                except Exception as e:
+                    ctx.violation('legacy:' + red, cfg, 'raises:' + type(e).__name__, message=str(e)[:200])
 
 
 def run_pspace(ctx):
